@@ -94,6 +94,20 @@ def _mgr_case(rng, size, tf, fill, ha, life, extra_passes=False, malformed=False
         s = gen.tf_seconds(tf)
         step = max(1, s // rng.choice([1, 2, 3, 4, 5, 10, 20])) if (fill or rng.random() < 0.8) else None
     stream, meta = gen.gen_stream(rng, n, step=step)
+    if ha and rng.random() < 0.12:
+        # prices that are not a well-formed candle (close outside [low, high]; high = low = 0): Heikin-Ashi is defined for any o/h/l/c
+        def loosen(t):
+            ts, o, h, l, c, v = t
+            r = rng.random()
+            if r < 0.25:
+                return (ts, o, h, l, round(h + abs(h - l) * rng.choice([0.5, 1, 3]) + 0.25, 4), v)
+            if r < 0.5:
+                return (ts, o, h, l, round(max(l - abs(h - l) * rng.choice([0.5, 1, 3]) - 0.25, 0.0001), 4), v)
+            if r < 0.65:
+                return (ts, o, 0.0, 0.0, c, v)
+            return t
+        stream = [loosen(t) for t in stream]
+        meta["loose"] = True
     if malformed and n >= 2:
         k = rng.random()
         i = rng.randrange(1, n)
